@@ -67,7 +67,9 @@ class Streams:
         if len(self.impl) != len(self.lines):
             # the harness process died (abort / stack overflow): find the line
             k = len(self.impl)
-            self.chk.violation("oracle", f"implementation harness died (rc={rc}) while processing: {self.lines[k][:200]}",
+            what = ("the implementation never returned (killed after the time budget)" if "hang" in (err or "")
+                    else f"implementation harness died (rc={rc})")
+            self.chk.violation("oracle", f"{what} while processing: {self.lines[k][:200]}",
                                {"kind": "oracle", "lines": [self.lines[k]], "stderr": err[-500:]})
             self.impl += ["<died>"] * (len(self.lines) - len(self.impl))
         if self.model_ok:
